@@ -81,7 +81,10 @@ def run(ctx, rep):
     for (b, bb, t) in nonfwd:
         k = fn_key(b)
         sl = flow.backward_slice(b, op_place(t["args"][4])) if op_place(t["args"][4]) else {"calls": set()}
-        enc = any(ENC.search(c) for c in sl["calls"])
+        # must-derive: EVERY origin of the bytes is the result of an encrypting call (a conditional `if fast { raw } else
+        # { encrypt(raw) }` has a second origin and does not pass)
+        orig = flow.origins(b, op_place(t["args"][4])) if op_place(t["args"][4]) else []
+        enc = bool(orig) and all(o.kind == "call" and ENC.search(o.data[1]) for o in orig)
         why = None
         if not enc:
             # save_file: the branch must be the `!F::ENCRYPTED` one
